@@ -24,10 +24,15 @@ import tempfile
 import time
 
 ROOT = os.path.dirname(os.path.dirname(os.path.abspath(__file__)))
-COQ = os.path.join(ROOT, "coq")
+# VERIF_COQ_DIR: a private copy of the Coq tree (bin/seeded uses one per mutant so that regenerated coq/Gen files
+# of a changed tree never leak into runs against /repo)
+COQ = os.environ.get("VERIF_COQ_DIR") or os.path.join(ROOT, "coq")
 REPO = os.environ.get("VERIF_REPO", "/repo")
 PY = os.environ.get("VERIF_PY", "/venv/bin/python")
 JOBS = int(os.environ.get("VERIF_JOBS", "16"))
+# VERIF_OUT_DIR: where evidence/ and replays/ are written (default /verif; bin/seeded redirects the output of runs
+# against a changed tree so that they never overwrite the evidence of the registered checks)
+OUT = os.environ.get("VERIF_OUT_DIR") or ROOT
 SHARD = 400
 
 ALLOWED_AXIOMS = {
@@ -370,7 +375,7 @@ class Run:
 
 
 def write_replay(prop, seed, n, payload):
-    d = os.path.join(ROOT, "replays")
+    d = os.path.join(OUT, "replays")
     os.makedirs(d, exist_ok=True)
     path = os.path.join(d, "%s-%s-%d.json" % (prop, seed, n))
     with open(path, "w") as f:
@@ -379,7 +384,7 @@ def write_replay(prop, seed, n, payload):
 
 
 def write_evidence(prop, tier, seed, coverage, assumptions, wall, violations):
-    d = os.path.join(ROOT, "evidence")
+    d = os.path.join(OUT, "evidence")
     os.makedirs(d, exist_ok=True)
     ev = {
         "property_id": prop,
